@@ -51,7 +51,7 @@ GUARDS = [
     (r'clientbound/(login|status|handshake)/', ['C06', 'C05', 'C07', 'C10',
                                                 'C09']),
     (r'serverbound/', ['C06', 'C05', 'C07', 'C10', 'C09', 'C11']),
-    (r'minecraft/__init__\.py$', ['C08', 'C06', 'C09', 'C05']),
+    (r'minecraft/__init__\.py$', ['C07', 'C08', 'C06', 'C09', 'C05']),
     (r'minecraft/utility\.py$', ['C08', 'C06', 'C05']),
     (r'minecraft/exceptions\.py$', ['C19', 'C14', 'C10', 'C09']),
 ]
